@@ -381,6 +381,18 @@ theorem verify_from_atom_complete_partial (c : Ctx) (x : Re) (hx : AtomLeaf x) (
   rw [hsame] at hbef
   exact ⟨k1, k2, (vm_complete_from_atom_bwd c x hx hgr hszb hidb buf o ho flb hb0 hb1 hb2 fuel2 m2 c2 hbw lb hlb hlo hbef).2 hb3⟩
 
+open YaraModel.ReVm YaraModel.ReEmit in
+/-- the hypotheses of `verify_from_atom_complete_partial` are satisfiable together: `10 41 ?? 43` over `x 10 A b C`, the atom
+    node `41` (forward entry 2, backward entry 5) at offset 2 — the non-exhaustive forward run returns `.done 3 []`, the
+    exhaustive backward run `.done 1 [1]`; the match [1, 5) runs through the node, and the theorem yields 0 ≤ 3 and 1 ∈ [1] -/
+example : (0 : Int) ≤ 3 ∧ (({} : VmFlags).exhaustive = true → 3 ∈ ([] : List Nat)) ∧ 1 ∈ [1] :=
+  verify_from_atom_complete_partial (.catR (.lit 0x10) (.catL .hole (.cat .any (.lit 0x43)))) (.lit 0x41) (.inl ⟨_, rfl⟩)
+    (.seq (.byte _) (.seq (.byte _) (.seq .wild (.byte _)))) (.seq (.seq (.seq (.byte _) .wild) (.byte _)) (.byte _))
+    (by decide) (by decide) (by decide) (by decide) #[0x78, 0x10, 0x41, 0x62, 0x43] 2 (by decide) {} { backwards := true, exhaustive := true }
+    rfl rfl rfl rfl rfl rfl rfl rfl 1000 1000 3 1 [] [1] (by decide) (by decide) 1 1 3 (by decide) (by decide) (by decide)
+    ⟨2, (Re.ends_iff_Matches _ _ _ _ _).1 (by decide), rfl⟩ ((Re.ends_iff_Matches _ _ _ _ _).1 (by decide))
+    ⟨3, rfl, (Re.ends_iff_Matches _ _ _ _ _).1 (by decide)⟩
+
 open YaraModel.ReVm YaraModel.ReEmit YaraModel.ReScan YaraModel.ReAtoms in
 /-- `hex_scan_complete_partial`: COMPLETENESS of the scan of one hex string in one block, the converse of `hex_scan_sound`,
     over the model chain atoms → candidates → verification (non-exhaustive forward run from the atom node's instruction,
